@@ -28,6 +28,19 @@ Write(t, k, v) == val' = [val EXCEPT ![t][k] = v] /\ UNCHANGED idx
 MakeReady(t)   == idx' = [idx EXCEPT ![t] = "ready"] /\ UNCHANGED val
 Drop(t)        == idx' = [idx EXCEPT ![t] = "none"] /\ UNCHANGED val
 
-\* what a search "field = v" on table t answers: the primary keys in key order
-Search(t, v) == SelectSeq([k \in Keys |-> k], LAMBDA k : val[t][k] = v)
+\* A search condition on the indexed field: lower bound lo and upper bound hi are value positions
+\* (0 = that side is unbounded), il / ih say whether the bound itself is included:
+\*   f = v: (v, TRUE, v, TRUE)   f < v: (0, _, v, FALSE)   f <= v   f > v   f >= v   lo <(=) f <(=) hi
+\* Field values are positions of an ordered pool (the driver instantiates it with strings or with
+\* 64-bit integers incl. the smallest and the largest one; bounds are always stored values).
+Sat(x, lo, il, hi, ih) ==
+  /\ x # 0
+  /\ (lo = 0 \/ (IF il THEN x >= lo ELSE x > lo))
+  /\ (hi = 0 \/ (IF ih THEN x <= hi ELSE x < hi))
+
+\* what the search answers: the primary keys whose field satisfies the condition, in index order
+\* (by value, then by key)
+Search(t, lo, il, hi, ih) ==
+  SetToSortSeq({k \in Keys : Sat(val[t][k], lo, il, hi, ih)},
+               LAMBDA a, b : val[t][a] < val[t][b] \/ (val[t][a] = val[t][b] /\ a < b))
 =============================================================================
